@@ -56,6 +56,8 @@ def gen(rng, tier):
         cases.append({'kind': 're', 'X': G.random_re(rng, rng.randint(1, 4), 2)})
     for _ in range(k // 2):
         cases.append({'kind': 'cfg', 'X': G.random_cfg(rng, rng.randint(1, 3), 2, rng.randint(1, 5), maxlen=3)})
+    for _ in range(max(6, k // 6)):
+        cases.append({'kind': 'cfg', 'X': G.unit_cycle_cfg(rng)})
     for _ in range(k // 3):
         # right-linear grammars (A -> aB | B | epsilon) for cfg_to_nfa, with an occasional rule of another shape
         V = ['S', 'A', 'B'][:rng.randint(1, 3)]
